@@ -1,6 +1,7 @@
 package tor
 
 import (
+	"bytes"
 	"context"
 	"crypto/sha1"
 	"errors"
@@ -16,6 +17,7 @@ import (
 	"github.com/jech/storrent/hash"
 	"github.com/jech/storrent/httpclient"
 	"github.com/jech/storrent/path"
+	"github.com/jech/storrent/protocol"
 	"github.com/jech/storrent/tracker"
 	"github.com/jech/storrent/webseed"
 )
@@ -145,7 +147,7 @@ func GetTorrent(ctx context.Context, proxy string, url string) (*Torrent, error)
 // ReadTorrent reads a torrent from an io.Reader.  The given proxy will be
 // used when accessing trackers for this torrent.
 func ReadTorrent(proxy string, r io.Reader) (*Torrent, error) {
-	decoder := bencode.NewDecoder(r)
+	decoder := bencode.NewDecoder(protocol.LimitBencodeDepth(r))
 	var torrent BTorrent
 	err := decoder.Decode(&torrent)
 	if err != nil {
@@ -202,7 +204,9 @@ func validComponent(s string) bool {
 // MetadataComplete must be called when a torrent's metadata is complete.
 func (torrent *Torrent) MetadataComplete() error {
 	var info BInfo
-	err := bencode.DecodeBytes(torrent.Info, &info)
+	err := bencode.NewDecoder(protocol.LimitBencodeDepth(
+		bytes.NewReader(torrent.Info),
+	)).Decode(&info)
 	if err != nil {
 		return err
 	}
